@@ -496,8 +496,9 @@ func (x *exec) loopEnter(st *State, fr *Frame, lp *loop) bool {
 	if ef.all {
 		e.havocAll(st)
 	} else {
+		framed := fr.isUnit && x.unit != nil && x.unit.Spec != nil && !x.unit.Spec.ModAll && x.unit.Spec.Opts["noframe"] == "" && st.gen == 0
 		for _, k := range sortedKeys(ef.keys) {
-			x.havocPrefix(st, k)
+			x.havocPrefix(st, k, framed)
 		}
 		for g := range ef.globals {
 			if st.globals == nil {
@@ -589,10 +590,13 @@ func (x *exec) loopBack(st *State, fr *Frame, lp *loop) {
 	if !auto.IsTrue() {
 		e.obligation(st, "inv-keep", name+":range-index", "", "range index within bounds", "", auto)
 	}
+	if fr.isUnit && x.unit != nil {
+		x.frameCheck(st, x.unit, " (at the back edge of "+name+")")
+	}
 }
 
 // havocPrefix replaces every known heap array whose key has the given prefix by a fresh one.
-func (x *exec) havocPrefix(st *State, prefix string) {
+func (x *exec) havocPrefix(st *State, prefix string, framed bool) {
 	e := x.e
 	// make sure arrays of that prefix that were never touched are registered: keys are registered lazily on
 	// first access, so an untouched key needs no havoc now, but a later first access must not see the old
@@ -600,6 +604,10 @@ func (x *exec) havocPrefix(st *State, prefix string) {
 	for _, k := range sortedKeys(e.heapKeys) {
 		if k == prefix || len(k) > len(prefix) && k[:len(prefix)] == prefix && (k[len(prefix)] == '.' || k[len(prefix)] == '>') {
 			hk := e.heapKeys[k]
+			if framed {
+				x.framedHavoc(st, x.unit, k)
+				continue
+			}
 			st.heap[k] = e.ctx.Fresh("Hl<"+k+">", smt.ArrayOf(hk.Idx, hk.Elem))
 		}
 	}
